@@ -281,6 +281,8 @@ def _spans(kind, rx, text, maxsplit=0):
             else:
                 out.append(('tuple',) + tuple((m.start(g), m.end(g)) for g in range(1, rx.groups + 1)))
         return out
+    if kind == 'finditer':
+        return [[(m.start(g), m.end(g)) for g in range(0, rx.groups + 1)] for m in rx.finditer(text)]
     if kind in ('search', 'match', 'fullmatch'):
         m = getattr(rx, kind)(text)
         if m is None:
